@@ -1300,6 +1300,9 @@ class Scalar(Qube):
             result = self.flatten() if axis is None else self
             return result.wod.copy()
 
+        if self._shape_ == ():          # axis is None: one element, flattened
+            return self.wod.reshape((1,)).copy()
+
         if not np.any(self._mask_):
             result = Scalar(np.sort(self._values_, axis=axis), mask=False,
                             units=self._units_)
